@@ -435,10 +435,15 @@ class LoopMixin:
             fr[a.vararg.arg] = self.sym(st, a.vararg.arg, c.types.get(a.vararg.arg, "tuple"))
         if a.kwarg:
             fr[a.kwarg.arg] = self.sym(st, a.kwarg.arg, c.types.get(a.kwarg.arg, "dict"))
+            # Python call binding: the **kwargs dict never holds a key naming one of the function's own parameters
+            kd = self.dom_of(st, fr[a.kwarg.arg])
+            for p in [x.arg for x in a.args + a.kwonlyargs]:
+                st.assume(z3.Not(z3.Select(kd, Val.StrV(z3.StringVal(p)))))
         # closure variables of nested functions are declared in the contract as `free={name: hint}`
         for name, hint in c.extra.get("free", {}).items():
             fr[name] = self.sym(st, name, hint)
         self.root_fid = fid
+        self.wf_assume(st, private=[fr[a.kwarg.arg].t] if a.kwarg else [])
         for gname, ghint in c.extra.get("ghosts", {}).items():
             fr[gname] = self.sym(st, "gh_" + gname, ghint)
         for gname, gsrc in c.extra.get("ghost_defaults", {}).items():
@@ -449,8 +454,7 @@ class LoopMixin:
         st.entry_frame = dict(fr)
         if c.decreases:
             st.snap["$measure"] = self.spec_value(st, c.decreases, fid, st.heap0, st.entry_frame, {}).t
-        if not self.feasible(st):
-            self.emit(st, "vacuity:requires-satisfiable", z3.BoolVal(False), "vacuity")
+        self.vacuous = not self.feasible(st)
         if self.is_generator(fn) and fk == "contextmanager":
             st.yield_handler = self.cm_body_handler(c, fid)
             outs = self.exec_block(fn.body, st)
